@@ -225,6 +225,7 @@ def d3_formula(chk, F):
 
 
 def _norm_mul(t):
+    t = re.sub(r"\(\*([A-Za-z_][A-Za-z0-9_]*)\)", r"\1", t)      # `(*value)` (argument taken by reference) reads the same value
     m = re.fullmatch(r"\((.*) Mul (.*)\)", t)
     if m:
         a, b = sorted([m.group(1), m.group(2)])
